@@ -62,6 +62,10 @@ CHECKS = {
    text="Seeded inputs (valid, legal non-minimal, corrupt inside a nested preferably lazy submessage) are decoded lazily and eagerly; verdicts must agree, then a seeded history of reads and writes (getters, reflection, Size/Marshal, JSON/text, setters and clearers incl. generated ones, Mutable, Merge into/out of, Unmarshal with Merge with and without NoLazyDecoding, failing re-decodes, Reset, Clone-and-continue, UseCachedSize pairs, scribbling the original input) is applied to both in lock-step with every result and, at seeded points and at the end, Equal / deterministic bytes / CheckInitialized / JSON / text compared. Panics at any access are violations. The searched dimension is when deferred decoding happens relative to the other operations and faults.",
    note="Sampling of inputs and histories; no concurrency in this check (C18 covers shared readers). Size is exempt while a non-minimal encoding is still undecoded (documented exception). Eager decoding is the reference.",
    technique="deterministic simulation: seeded operation/fault histories applied in lock-step to a lazily and an eagerly decoded twin, result-by-result comparison"),
+ "C33": dict(level="exploration", ref="DESIGN.md section 4 (C33)",
+   text="Seeded universes of small files over a deliberately tiny name space make every conflict class frequent. Three modes: sequential histories on local Files/Types registries compared operation by operation with an abstract name-table model written from the documentation, with a full observation compared before/after every failed registration; exclusive registration phases alternating with 2-4 concurrent Find/Range/Num clients under the race detector; and 2-4 clients issuing all operations concurrently, under seeded schedules, on fresh registries swapped into GlobalFiles/GlobalTypes, whose recorded history (invoke/return stamped with scheduler event sequence numbers) is checked for linearizability against the model with porcupine.",
+   note="Sampling of universes, histories and schedules; histories <= 30 operations; porcupine time-outs are counted as inconclusive, never reported. The model is trusted; universe files are restricted to schemas protodesc accepts.",
+   technique="deterministic simulation: seeded histories vs an executable name-table model; concurrent histories under a seeded scheduler checked for linearizability with porcupine"),
 }
 
 def main():
